@@ -110,7 +110,7 @@ void do_call(const JV& c) {
 // runs one call in a child; fault = 0 none, > 0 fail the k-th allocation, < 0 count allocations (writes a Count event)
 bool one_call(std::ostream& os, const std::string& line, long long id, long fault) {
   std::string what = "\"id\":" + jnum(id) + ",\"fault\":" + jnum(fault) + ",\"case\":" + line;
-  return guarded(os, what, 20, [&](std::ostream& o) {
+  auto body = [&](std::ostream& o) {
     JV c = jparse(line);
     if (fault >= 0) o << Ev("Call").kn("id", id).kn("fault", fault).ks("ep", c["ep"].s).kn("si", c["si"].i()).kn("ci", c["ci"].i()).kn("mag", c["mag"].i()).kv("a", jarr(c["a"].a.begin(), c["a"].a.end(), [](const JV& v) { return jnum(v.i()); })).str() << "\n";
     std::string thrown;
@@ -126,7 +126,13 @@ bool one_call(std::ostream& os, const std::string& line, long long id, long faul
     leak = __lsan_do_recoverable_leak_check();
 #endif
     o << Ev("Destroyed").kn("id", id).kn("leak", leak).str() << "\n";
-  });
+  };
+  // watchdog 30 s (unchanged tree: < 0.1 s per call); a call killed by the watchdog is re-run once with 300 s before it counts,
+  // so that a heavily loaded machine cannot turn into a verdict
+  std::ostringstream first; bool ok = guarded(first, what, 30, body);
+  if (!ok && first.str().find("\"sig\":14") != std::string::npos) { std::ostringstream second; ok = guarded(second, what, 300, body); os << second.str(); }
+  else os << first.str();
+  return ok;
 }
 
 // vh c10 --in calls.ndjson --skip k --stride n [--faults 1 --maxfault 400] --out file
@@ -139,7 +145,8 @@ int cmd_c10(const Args& a) {
     std::ostringstream cs; one_call(cs, line, ++id, -1);
     std::string c = cs.str(); size_t p = c.find("\"n\":"); if (p == std::string::npos) { os << c; continue; }   // the counting run itself crashed: reported as Crash
     long n = atol(c.c_str() + p + 4); ++ncalls;
-    for (long k = 1; k <= std::min(n, maxfault); ++k) { one_call(os, line, ++id, k); ++nfault; }
+    long only = argi(a, "onlyfault", 0);
+    for (long k = 1; k <= std::min(n, maxfault); ++k) { if (only > 0 && k != only) continue; one_call(os, line, ++id, k); ++nfault; }
   }
   fprintf(stderr, "calls=%lld faultruns=%lld\n", ncalls, nfault);
   return 0;
